@@ -220,7 +220,7 @@ PROPS["C06"] = {
     "outside": 'longer inputs (vectorised paths of memchr for >= 16 bytes are trusted)',
     "assumptions": COMMON_ASSUME + ['std::fmt::format stubbed (messages not compared)', 'core::str::from_utf8 replaced by a byte-wise model checked against std (c19_utf8_model_vs_std)', 'core::arch::x86_64::__cpuid / __cpuid_count return zeros', 'ids, names, units and string contents are literals in whole-message harnesses (whether a byte is NUL is control for the parser); arbitrary contents are decided in C19 / c02d'],
     "trusted_base": ['memchr for haystacks > 8 bytes'],
-    "harnesses": [H("c06::" + n, "quick", 900) for n in ["c06_search_real_memmem_8", "c06_search_real_5", "c06_search_real_6", "c06_search_real_partial_prefixes", "c06_junk_1", "c06_junk_2", "c06_junk_3", "c06_junk_partial_d",
+    "harnesses": [H("c06::" + n, "quick", 900) for n in ["c06_search_real_memmem_8", "c06_search_real_5", "c06_search_real_6", "c06_search_real_partial_prefixes", "c06_storage_header_behind_literal_junk", "c06_junk_1", "c06_junk_2", "c06_junk_3", "c06_junk_partial_d",
                   "c06_junk_partial_dlt", "c06_junk_partial_ddl", "c06_junk_3_filtered_out", "c06_stream_with_junk_between"]],
 }
 
